@@ -6,6 +6,9 @@ import Spydr.Verilog.RoundTripBits
 import Spydr.Verilog.RoundTripView
 import Spydr.Verilog.RoundTripTokD
 import Spydr.Verilog.RoundTripText
+import Spydr.Verilog.WFStruct
+import Spydr.Verilog.RoundTripRenderB
+import Spydr.Verilog.RoundTripLexB
 
 #print axioms Spydr.Verilog.getWires_spec
 #print axioms Spydr.Verilog.getWires_spec_single_all
@@ -77,3 +80,29 @@ import Spydr.Verilog.RoundTripText
 #print axioms Spydr.Verilog.Elab.c04_text
 #print axioms Spydr.Verilog.Elab.exNet_full
 #print axioms Spydr.Verilog.Elab.exNet_roundtrip
+#print axioms Spydr.Verilog.Elab.regrow_wf
+#print axioms Spydr.Verilog.Elab.createOrUpdateCable_wf
+#print axioms Spydr.Verilog.Elab.createOrUpdatePort_wf
+#print axioms Spydr.Verilog.Elab.reorderPorts_wf
+#print axioms Spydr.Verilog.Elab.portDecl_wf
+#print axioms Spydr.Verilog.Elab.connectInstRow_wf
+#print axioms Spydr.Verilog.Elab.instantiate_wf
+#print axioms Spydr.Verilog.Elab.positional_wf
+#print axioms Spydr.Verilog.Elab.assignStmt_wf
+#print axioms Spydr.Verilog.Elab.elabModule_wf
+#print axioms Spydr.Verilog.Elab.elabDesign_wf
+#print axioms Spydr.Verilog.Elab.readV_wf
+#print axioms Spydr.Verilog.Elab.structWF_iff
+#print axioms Spydr.Verilog.Elab.reader_structWF
+#print axioms Spydr.Verilog.Elab.elab_structWF
+#print axioms Spydr.Verilog.Elab.exNet_structWF
+#print axioms Spydr.Verilog.Elab.pending_not_emptied
+#print axioms Spydr.Verilog.Elab.composeV_text
+#print axioms Spydr.Verilog.Elab.moduleText_top
+#print axioms Spydr.Verilog.Elab.fragFull_of
+#print axioms Spydr.Verilog.Elab.lexV_run
+#print axioms Spydr.Verilog.Elab.add_pend
+#print axioms Spydr.Verilog.Elab.add_word_end
+#print axioms Spydr.Verilog.Elab.run_clean
+#print axioms Spydr.Verilog.Elab.lex_pieces
+#print axioms Spydr.Verilog.Elab.lexV_pieces
